@@ -83,7 +83,7 @@ func hopByHopHeaders(respHeader http.Header) map[string]struct{} {
 		"Connection":        {},
 		"Proxy-Connection":  {},
 		"Keep-Alive":        {},
-		"TE":                {},
+		"Te":                {}, // canonical form of TE
 		"Transfer-Encoding": {},
 		"Upgrade":           {},
 		// RFC 9111 §3.1 proxy headers
